@@ -62,7 +62,7 @@ pub(crate) fn build(plan: &Plan) -> World {
     let mut gen = TxGen::new(pool.clone(), plan.seed * 1000, 2);
     // two blocks more than any height the plan mentions: after a restart the honest peer has moved on by one block
     let main = BodyChain::new(&mut rng, flat_plan(8, 8, 5), plan.len + 2, 1 + plan.seed, &mut gen);
-    let fork = main.fork(&mut rng, plan.fork_at, plan.len - plan.fork_at + 9, 9_000 + plan.seed, pool.clone(), 2);
+    let fork = main.fork(&mut rng, plan.fork_at, plan.len - plan.fork_at + 9, 9_000 + plan.seed, pool.clone(), 1); // every block of the other branch touches pool scripts (the block at a rollback point in particular)
     let storage = new_storage("verif-c08");
     World { net: None, storage, main, fork, pool, on_fork: false, height: 0, peer: PeerIndex::new(1), consensus: dummy_consensus(), inbox: Vec::new(), last_n: plan.last_n, table_problems: Vec::new() }
 }
